@@ -119,7 +119,13 @@ func wrongValue(sp h.SPConfig, right, variant string) string {
 		cfg = false
 	}
 	if !cfg {
-		return nearMiss(right, variant)
+		v = nearMiss(right, variant)
+		if strings.Contains(v, "]]>") && !strings.Contains(right, "]]>") {
+			// a near miss that DELETES characters (pattern variants) can assemble "]]>" out of a value that
+			// did not contain it: not applicable, for the same reason as below
+			return right
+		}
+		return v
 	}
 	if strings.Contains(v, "]]>") {
 		// text-context strings may hold "]]>", which cannot be carried in a signed attribute (C08's open
